@@ -163,6 +163,150 @@ func rawTarget(link string) (string, bool) {
 	return "", false
 }
 
+// ---------- the string level: raw requests against Model/PagingUrl.v ----------
+
+// stringCases emits, for one listing, the raw query of the first request and for every answer
+// the step "request URL + Link header -> path and raw query of the next request".
+func stringCases(sc *Scenario, log []*fakereg.Exchange, outcome string) {
+	if len(log) == 0 {
+		return
+	}
+	if x := log[0]; x.Kind != 'M' {
+		id := run.NewID()
+		run.Case(id, fmt.Sprintf("U0 %s %d %s %s", sc.Kind, sc.N, common.Hex(sc.AT), common.Hex(sc.Last)), common.Hex(x.RawQuery))
+		run.Count("string_first_request")
+	}
+	for i, x := range log {
+		if x.Kind == 'M' || x.Status != 200 {
+			continue
+		}
+		var obs string
+		switch {
+		case i+1 < len(log) && log[i+1].Kind != 'M':
+			obs = "NEXT " + common.Hex(log[i+1].SentPath) + " " + common.Hex(log[i+1].RawQuery)
+		case i+1 < len(log):
+			continue
+		case outcome == "Done":
+			obs = "NONE"
+		case outcome == "ErrLink":
+			obs = "ERRLINK"
+		case outcome == "ErrResolve":
+			obs = "ERRRESOLVE"
+		default:
+			continue
+		}
+		if i > 3 && !run.Rand.Chance(1, 3) {
+			continue
+		}
+		id := run.NewID()
+		run.Case(id, fmt.Sprintf("U %s %d %s %s %s %s %s", sc.Kind, sc.N, common.Hex("http"), common.Hex(host), common.Hex(x.Path), common.Hex(x.RawQuery), common.Hex(x.Link)), obs)
+		run.Count("string_next_request_" + strings.SplitN(obs, " ", 2)[0])
+	}
+}
+
+func setQueryCase(raw string, kv ...string) {
+	id := run.NewID()
+	toks := make([]string, len(kv))
+	for i, s := range kv {
+		toks[i] = common.Hex(s)
+	}
+	got := remote.VerifSetQueryParams(raw, kv...)
+	run.Case(id, "QS "+common.Hex(raw)+" "+strings.Join(toks, " "), common.Hex(got))
+	run.Count("string_set_query")
+	run.Nontrivial("QS" + raw + strings.Join(kv, "\x00"))
+	// oracle: a registry reading the result sees every other parameter as before and the new values
+	before, after := fakereg.ParseQueryLenient(raw), fakereg.ParseQueryLenient(got)
+	set := map[string]string{}
+	for i := 0; i+1 < len(kv); i += 2 {
+		set[kv[i]] = kv[i+1]
+	}
+	rep := map[string]any{"op": "setquery", "raw": raw, "kv": kv}
+	for k, v := range set {
+		if vs := after[k]; len(vs) != 1 || vs[0] != v {
+			run.OracleFail(id, "set-query", fmt.Sprintf("setQueryParams(%q, %q) = %q: %q is %q", raw, kv, got, k, vs), rep)
+		}
+	}
+	for k, vs := range before {
+		if _, ok := set[k]; !ok && strings.Join(after[k], "\x00") != strings.Join(vs, "\x00") {
+			run.OracleFail(id, "set-query", fmt.Sprintf("setQueryParams(%q, %q) = %q: %q was %q, is %q", raw, kv, got, k, vs, after[k]), rep)
+		}
+	}
+	for k := range after {
+		if _, ok := before[k]; !ok {
+			if _, ok := set[k]; !ok {
+				run.OracleFail(id, "set-query", fmt.Sprintf("setQueryParams(%q, %q) = %q: new parameter %q", raw, kv, got, k), rep)
+			}
+		}
+	}
+}
+
+func escapeCase(s string) {
+	id := run.NewID()
+	un := "!"
+	if u, err := url.QueryUnescape(s); err == nil {
+		un = common.Hex(u)
+	}
+	esc := url.QueryEscape(s)
+	run.Case(id, "QE "+common.Hex(s), common.Hex(esc)+" "+un)
+	run.Count("string_escape")
+	if back, err := url.QueryUnescape(esc); err != nil || back != s {
+		run.OracleFail(id, "escape-roundtrip", fmt.Sprintf("QueryUnescape(QueryEscape(%q)) = %q, %v", s, back, err), map[string]any{"op": "escape", "s": s})
+	}
+	id2 := run.NewID()
+	kvs := valuesKVs(fakereg.ParseQueryLenient(s))
+	run.Case(id2, "QL "+common.Hex(s), obsQuery(kvs))
+}
+
+func resolveCase(bpath, bquery, ref string) {
+	id := run.NewID()
+	base := &url.URL{Scheme: "http", Host: host, Path: bpath, RawQuery: bquery}
+	obs := "ERR"
+	if u, err := base.Parse(ref); err == nil {
+		if u2, err := url.Parse(u.String()); err == nil {
+			obs = fmt.Sprintf("OK %s %s %s %s", common.Hex(u2.Scheme), common.Hex(u2.Host), common.Hex(u2.EscapedPath()), common.Hex(u2.RawQuery))
+		}
+	}
+	run.Case(id, fmt.Sprintf("RR %s %s %s %s %s", common.Hex("http"), common.Hex(host), common.Hex(bpath), common.Hex(bquery), common.Hex(ref)), obs)
+	run.Count("string_resolve_" + obs[:2])
+	run.Nontrivial("RR" + bpath + "?" + bquery + " " + ref)
+}
+
+var refPieces = []string{"http://", "https://", "HTTP://", "//", "/", "./", "../", "..", ".", "?", "&", "=", ";", ":", "a", "b.c", "v2", "list",
+	"%41", "%zz", "reg.test", "reg.test:5000", "other.io", "@", "#", " ", "~p", "x=1", "last=a%2Fb", "n=2", "+", "sha256:ab", "ü", "///", "?"}
+
+func genStrings(r *common.Rand) {
+	bases := [][2]string{{"/v2/repo/tags/list", "n=2&last=a"}, {"/v2/_catalog", ""}, {"/v2/a/b/referrers/sha256:ab", "artifactType=x%2Fy"}, {"/v2/repo/tags/list/~p", "token=p;a"}, {"/", ""}, {"/v2/", "x"}}
+	for i := 0; i < run.Scale(1500, 40000); i++ {
+		var sb strings.Builder
+		for j := r.Intn(6); j >= 0; j-- {
+			sb.WriteString(common.Pick(r, refPieces))
+		}
+		b := common.Pick(r, bases)
+		resolveCase(b[0], b[1], sb.String())
+	}
+	for _, ref := range []string{"", "?", "?x", "/", "//reg.test", "//reg.test/", "http://reg.test", "http://reg.test?x=1", ".", "..", "./", "../", "../..", "../../../x", "a/./b/../c", "/a/../../b", "x:y", "./x:y", "/x:y", "?a:b", "http:/x", "http:x", "///x", "list?last=b", "./list?last=b", "../list/~p?t=1", "?last=b;1", "?t=%zz"} {
+		for _, b := range bases {
+			resolveCase(b[0], b[1], ref)
+		}
+	}
+	raws := []string{"", "n=1", "last=a&n=5", "x=1&n=3&y=2&n=4", "tok=a;b&n=1", "t=%zz&last=q", "%6e=7&x", "&&a=1&&", "n", "n=", "=v", "a=b=c", "la%73t=z&k;1=v", "u=100%&n=2", "last=a+b&LAST=c"}
+	vals := []string{"", "3", "a b", "a/b?c", "ü&=", "%41", "+", "x;y", "~._-"}
+	for _, raw := range raws {
+		for _, v := range vals {
+			setQueryCase(raw, "n", v)
+			setQueryCase(raw, "n", "2", "last", v)
+			setQueryCase(raw, "last", v)
+		}
+	}
+	for i := 0; i < run.Scale(300, 5000); i++ {
+		var sb strings.Builder
+		for j := r.Intn(8); j >= 0; j-- {
+			sb.WriteString(common.Pick(r, []string{"a", "Z", "9", "-", "_", ".", "~", " ", "+", "%", "%4", "%41", "%zz", "%C3%BC", "&", "=", ";", "/", "?", "ü", "\x00", "\xff", "n", "last"}))
+		}
+		escapeCase(sb.String())
+	}
+}
+
 // ---------- running one scenario ----------
 
 func classify(err error) string {
@@ -470,6 +614,8 @@ func listCase(sc *Scenario) {
 	scjs, _ := json.Marshal(sc)
 	run.Case(id, strings.TrimRight(model, " ")+" J"+common.Hex(string(scjs)), obs)
 	run.TracesAgainstImpl++
+
+	stringCases(sc, reg.Log, outcome)
 
 	// ----- the oracle -----
 	var expected []fakereg.Item
@@ -1822,6 +1968,14 @@ func replay(cases []map[string]string) {
 			l, _ := strconv.ParseInt(c["limit"], 10, 64)
 			s, _ := strconv.ParseInt(c["size"], 10, 64)
 			sizeCase(l, s)
+		case "setquery":
+			var kv []string
+			json.Unmarshal([]byte(c["kv"]), &kv)
+			setQueryCase(c["raw"], kv...)
+		case "escape":
+			escapeCase(c["s"])
+		case "resolve":
+			resolveCase(c["bpath"], c["bquery"], c["ref"])
 		case "ping":
 			st, _ := strconv.Atoi(c["status"])
 			pingCase(c["state"], st, c["code"], c["ctype"])
@@ -1949,6 +2103,8 @@ func main() {
 		}
 		listCase(genScenario(r, mx))
 	}
+	// the string level: net/url resolution, setQueryParams, escaping
+	genStrings(r)
 	// pingReferrers
 	for _, st := range []string{"U", "S", "N"} {
 		for _, status := range []int{0, 404, 500, 401, 403} {
@@ -1994,6 +2150,8 @@ func coverageFloors() {
 		return n
 	}
 	floors := map[string]int{
+		"string_first_request": 1000, "string_next_request_NEXT": 1000, "string_next_request_NONE": 300, "string_next_request_ERR": 10,
+		"string_set_query": 300, "string_escape": 200, "string_resolve_OK": 200, "string_resolve_ER": 50,
 		"cursor_opaque": 100, "hidden_entries": 100, "list_empty_page_with_link": 20, "link_raw_pairs": 50, "link_other_path": 50, "link_after_redirect": 30, "link_further_values": 100, "link_rel_first_stream": 5,
 		"list_link_missing_midway": 5, "json_shape_variant": 100, "registry_page": 1000, "exhaustive": 200,
 		"link_variant_0": 100, "link_variant_1": 100, "link_variant_2": 100, "link_variant_3": 100, "link_variant_4": 100,
